@@ -21,9 +21,11 @@ FIELDS.update({
     'MediaHeaderBox': ['timescale', 'duration'],
     'EventMessageBox': ['timescale', 'presentation_time_delta', 'presentation_time', 'event_duration', 'event_id'],
     'ContentProtectionSpecificBox': [],
+    'SegmentIndexBox': ['reference_id', 'timescale', 'earliest_presentation_time', 'first_offset'],
 })
+SIDX_REF_FIELDS = ['ref_type', 'ref_size', 'duration', 'starts_with_SAP', 'SAP_type', 'SAP_delta_time']
 EMSG_SCHEME, EMSG_VALUE = 'urn:scte:scte35:2014:xml+bin', '5'
-FOURCC = {'ContentProtectionSpecificBox': 'pssh', 'TrackEncryptionBox': 'tenc', 'MediaHeaderBox': 'mdhd', 'EventMessageBox': 'emsg',
+FOURCC = {'SegmentIndexBox': 'sidx', 'ContentProtectionSpecificBox': 'pssh', 'TrackEncryptionBox': 'tenc', 'MediaHeaderBox': 'mdhd', 'EventMessageBox': 'emsg',
           'MovieFragmentHeaderBox': 'mfhd', 'MovieExtendsHeaderBox': 'mehd', 'TrackExtendsBox': 'trex',
           'TrackFragmentDecodeTimeBox': 'tfdt', 'TrackFragmentHeaderBox': 'tfhd', 'TrackFragmentRunBox': 'trun'}
 
@@ -121,6 +123,14 @@ def build(key, variant, i):
         kw.update(system_id=raw(HexBinary, 'system_id', 16), key_ids=[raw(HexBinary, f'kid{k}', 16) for k in range(nk)],
                   data=raw(Binary, 'payload', 7) if 'data' in parts else None)
         extra_env['payload'] = int(i['payload'])
+    if variant == 'SegmentIndexBox':
+        nr = int(parts[1][0])
+        refs = []
+        for k in range(nr):
+            vals = {f: int(i[f'r{k}_{f}']) for f in SIDX_REF_FIELDS}
+            extra_env.update({f'r{k}_{f}': v for f, v in vals.items()})
+            refs.append(mp4.SegmentReference(**vals))
+        kw['references'] = refs
     if variant == 'EventMessageBox':
         kw.update(scheme_id_uri=EMSG_SCHEME, value=EMSG_VALUE,
                   data=int(i['payload']).to_bytes(7, 'big') if payload and 0 <= int(i['payload']) < 256 ** 7 else None)
